@@ -553,7 +553,7 @@ PROPS["C07"] = dict(
     theorems=["BB.Props.C07.no_invariant_panic", "BB.Props.C07.subscriber_count_exact", "BB.Props.C07.quiescent_counts",
               "BB.Props.C07.one_send_at_a_time", "BB.Props.C07.no_membership_section_during_send", "BB.Props.C07.sends_left_are_all_owed",
               "BB.Props.C07.no_deadlock", "BB.PubSub.pinv12_reach", "BB.LockOrder.no_wait_cycle",
-              "BB.Props.C07.send_past_the_lock_returns", "BB.Props.C07.demoRun_fair", "BB.PubSub.send_leadsTo_out", "BB.PubSub.sendRank_step",
+              "BB.Props.C07.send_past_the_lock_returns", "BB.Props.C07.pending_waits_and_absorbs_finish", "BB.Props.C07.demoRun_fair", "BB.PubSub.exit_releases_sendMu", "BB.PubSub.after_return_all_acknowledged", "BB.PubSub.send_leadsTo_out", "BB.PubSub.sendRank_step",
               "BB.PubSub.send_enabled", "BB.PubSub.send_exit_is_done", "BB.PubSub.pc_next"],
     corr=[dict(family="pubsub", quick=150, thorough=6000, monitor=ps_monitor, no_shrink=True,
                nontrivial=has("absorb", "unsub_during_send_phase", "unsub_try_failed", "unsub_spin", "unsub_between_ping_add_and_cas", "cas_failed_by_racing_unsubscribe", "nil_yield_after_cancel"),
@@ -562,8 +562,8 @@ PROPS["C07"] = dict(
     open_statements=["termination of a Send that has acquired sendingMu is a leads-to theorem (send_past_the_lock_returns: rank = phase + work the subscribers still owe, "
                      "weak fairness of the Send's steps, the rendezvous, Wait's pong consumption and the non-spin unsubscribe steps); ACQUIRING sendMu / sendingMu is proved "
                      "only as deadlock freedom: the model does not give sync.RWMutex's writer preference (new readers may keep entering while a writer waits), so a "
-                     "leads-to for that phase is false of the model; termination of Subscribe / Unsubscribe / Wait follows from the Send's (they wait only for the Send in "
-                     "progress) but is stated only through no_deadlock"],
+                     "leads-to for that phase is false of the model; pending Waits and mid-send unsubscribes finish before the Send's return is complete (pending_waits_and_absorbs_finish); Subscribe and a spinning "
+                     "Unsubscribe then only need the free sendingMu (no_deadlock)"],
 )
 
 with_conform(PROPS["C01"], "Buffer")
